@@ -1,4 +1,5 @@
 import PwVerif.Model.Recovery
+import PwVerif.Model.Storage
 import PwVerif.Model.ExecFin
 import PwVerif.Model.Proto
 open PwVerif PwVerif.Exec PwVerif.Recovery PwVerif.Proto
@@ -25,6 +26,10 @@ structure Level where
   outNode : Nat
   sched : List Tok
   sched2 : List Tok
+  kbd : List Nat                   -- leaves whose fault is a KeyboardInterrupt (ends the loop of every level at once)
+  down3 : List (List Nat)          -- wiring observed for the run resumed from the SECOND recovery file
+  starters3 : List Nat
+  sched3 : List Tok
 
 structure DSt where
   n : Nat
@@ -34,13 +39,18 @@ structure DSt where
   dirty : List Nat
   cut : Option (Nat × Nat × Nat)   -- checkpoint: (level id, node, schedule tokens consumed before the save)
   keyAfterRun : Bool               -- a composite's `_cached_internals` describe the state AFTER its run
+  cp : List Nat                    -- leaves whose output only cloudpickle can serialise
+  ckptMore : List Nat              -- further checkpointing nodes (flat graphs)
+  fails2 : List Nat                -- leaves that raise in the resumed run (flat graphs)
+  kbd2 : List Nat
 
 def emptyFin (n : Nat) : FinDag :=
   { n := n, slots := List.replicate n [], down := List.replicate n [], starters := [],
     onExec := List.replicate n false, fails := List.replicate n false, rank := List.replicate n 0 }
 
 def DSt.init : DSt :=
-  { n := 0, rc := RCfg.now, levels := [], cur := none, dirty := [], cut := none, keyAfterRun := true }
+  { n := 0, rc := RCfg.now, levels := [], cur := none, dirty := [], cut := none, keyAfterRun := true,
+    cp := [], ckptMore := [], fails2 := [], kbd2 := [] }
 
 def setAt {α} (l : List α) (i : Nat) (v : α) (dflt : α) : List α :=
   let l' := if l.length ≤ i then l ++ List.replicate (i + 1 - l.length) dflt else l
@@ -101,19 +111,31 @@ def cutDag (l : Level) (macroFails : Nat → Bool) (chainM : Option Nat) : Dag :
   let d := l.f.toDag
   { d with fails := fun i => d.fails i || macroFails i, onExec := fun i => d.onExec i || chainM == some i }
 
-/-- does the first run of level `lid` (run to its end) raise? -/
-def levelFails (ls : List Level) : Nat → Nat → Bool
-  | 0, _ => false
+/-- how does the first run of level `lid` end when nothing outside stops it: (does it raise, was it ended
+by a KeyboardInterrupt).  An interrupt is not caught by the `except Exception` of the drain loop: the loop of
+the level ends at once, its composite fails with it, and so on upwards. -/
+def levelEnd (ls : List Level) : Nat → Nat → Bool × Bool
+  | 0, _ => (false, false)
   | fuel + 1, lid =>
     match findLevel ls lid with
-    | none => false
+    | none => (false, false)
     | some l =>
-      let mf := fun i => match l.macros.find? (·.1 == i) with
-        | some (_, lid2) => levelFails ls fuel lid2
-        | none => false
-      let d := cutDag l mf none
-      let (s, fin) := drive id (step Cfg.repaired d) (fun _ _ => false) (fuelOf l.f.n) (init d) l.sched 0 0
-      !s.errs.isEmpty || fin == "aborted"
+      let sub := fun i => match l.macros.find? (·.1 == i) with
+        | some (_, lid2) => levelEnd ls fuel lid2
+        | none => (false, false)
+      let d := cutDag l (fun i => (sub i).1) none
+      let isKbd := fun i => l.kbd.contains i || (sub i).2
+      let (s, fin) := drive id (step Cfg.repaired d) (fun s _ => l.own.any (fun i => isKbd i && s.st i == .failed))
+        (fuelOf l.f.n) (init d) l.sched 0 0
+      (!s.errs.isEmpty || fin == "aborted" || fin == "cut", fin == "cut")
+
+def levelFails (ls : List Level) (fuel lid : Nat) : Bool := (levelEnd ls fuel lid).1
+
+/-- the children of level `l` whose failure is an interrupt -/
+def kbdNodes (ls : List Level) (l : Level) (i : Nat) : Bool :=
+  l.kbd.contains i || (match l.macros.find? (·.1 == i) with
+    | some (_, lid2) => (levelEnd ls ls.length lid2).2
+    | none => false)
 
 def subtreeHas (ls : List Level) : Nat → Nat → Nat → Bool
   | 0, _, _ => false
@@ -147,7 +169,8 @@ def cutLevel (ls : List Level) (l : Level) (mode : Mode) : S × String × Dag :=
   | .fresh => let d := cutDag l mf none; (init d, "fresh", d)
   | .toEnd =>
     let d := cutDag l mf none
-    let (s, fin) := drive id (step Cfg.repaired d) (fun _ _ => false) (fuelOf l.f.n) (init d) l.sched 0 0
+    let (s, fin) := drive id (step Cfg.repaired d)
+      (fun s _ => l.own.any (fun i => kbdNodes ls l i && s.st i == .failed)) (fuelOf l.f.n) (init d) l.sched 0 0
     (s, fin, d)
   | .ckpt c T =>
     let d := cutDag l mf none
@@ -323,7 +346,8 @@ partial def resumeTree (st : DSt) (cuts : List LvlCut) (lid : Nat) (envChanged :
     let runWith : List Nat → LvlRun := fun macroDirty =>
       let fx : Fix := { dirty := fun i => st.dirty.contains i || envDirty i || macroDirty.contains i, off := st.n }
       let rs0 := resumeFromC st.rc (compSet st l) d2 c.s
-      let (rs, fin) := drive (·.s) (rstep fx Cfg.repaired d2) (fun _ _ => false) (fuelOf l.f.n) rs0 l.sched2 0 0
+      let (rs, fin) := drive (·.s) (rstepF (fun i => st.fails2.contains i) fx Cfg.repaired d2)
+        (fun s _ => st.kbd2.any (fun i => s.st i == St.failed)) (fuelOf l.f.n) rs0 l.sched2 0 0
       let below : List (Nat × Nat × List (Nat × RS × RS × String)) := l.macros.map fun (p : Nat × Nat) =>
         let g := p.1
         let a1 := c.s.args g
@@ -379,15 +403,35 @@ def runCase (st : DSt) : List String :=
     let allNodes := List.range (st.n + 1)
     let failedLeaves := (cuts.map fun c => c.l.own.filter (fun i => c.s.st i == .failed && !c.l.isMacro i)).flatten
     let rootFailed := match cutOf root.id with
-      | some c => !c.s.errs.isEmpty || c.fin == "aborted"
+      | some c => !c.s.errs.isEmpty || c.fin == "aborted" || (c.fin == "cut" && st.cut.isNone)
       | none => false
-    let files : List String :=
+    -- files: every save goes through the storage model (C19): what is on disk after the saves up to the cut
+    let cpDoneAt := fun (sts : List (Level × (Nat → St))) =>
+      sts.any fun (l, stf) => l.own.any (fun i => st.cp.contains i && stf i == .done)
+    let content := fun (b : Bool) => if b then Storage.Content.pickleFails else Storage.Content.ok
+    let cutStates := cuts.map fun c => (c.l, c.s.st)
+    let showFS := fun (dir : String) (name : String) (fs : Storage.FS) =>
+      (if fs.cpckl != .absent then [s!"{dir}/{name}.cpckl"] else []) ++
+      (if fs.pckl != .absent then [s!"{dir}/{name}.pckl"] else [])
+    let stCfg := Storage.Cfg.current
+    let rootDir := fun (n : Nat) => pathOf forest rootId depthFuel n
+    let (files, fsRec) : List String × Storage.FS :=
       match st.cut with
-      | some (_, c, _) => [pathOf forest rootId depthFuel (forest.checkpointDir depthFuel c) ++ "/picklestorage"]
+      | some (_, c, _) =>
+        -- the checkpoints written so far, in the order the nodes finished (several only in flat graphs)
+        let savers := c :: st.ckptMore
+        let dl := match cutOf root.id with | some rc => rc.s.doneLog | none => []
+        let saves : List Bool :=
+          if st.ckptMore.isEmpty then [cpDoneAt cutStates]
+          else (List.range dl.length).filterMap fun k =>
+            if savers.contains (dl.getD k 0) then some ((dl.take (k + 1)).any (fun i => st.cp.contains i)) else none
+        let fs := saves.foldl (fun fs b => Storage.saveFS stCfg fs (content b) Storage.Cls.graph 1) Storage.FS.init
+        (showFS (rootDir (forest.checkpointDir depthFuel c)) "picklestorage" fs, Storage.FS.init)
       | none =>
         if rootFailed then
-          (forest.recoveryFiles depthFuel allNodes failedLeaves).map fun n => pathOf forest rootId depthFuel n ++ "/recovery"
-        else []
+          let fs := Storage.saveFS stCfg Storage.FS.init (content (cpDoneAt cutStates)) Storage.Cls.graph 1
+          (((forest.recoveryFiles depthFuel allNodes failedLeaves).map fun n => showFS (rootDir n) "recovery" fs).flatten, fs)
+        else ([], Storage.FS.init)
     let perLevel := ls.map fun l =>
       let tag := s!"L{l.id}"
       match cutOf l.id, resOf l.id with
@@ -397,6 +441,8 @@ def runCase (st : DSt) : List String :=
         let envC := envOf viewCut l.id
         let envR := envOf viewRes l.id
         let leaves := l.own.filter (fun i => !l.isMacro i && !l.isUi i)
+        -- a run ended by an interrupt: the caller sees the KeyboardInterrupt
+        let fin := if fin == "cut" then "aborted" else fin
         let outcome := if fin == "aborted" then "aborted" else if fin == "exited" then (if rs.s.errs.isEmpty then "ok" else "failedchild") else fin
         [ s!"{tag} wf {l.f.check} {f2.check}",
           s!"{tag} cut flags " ++ " ".intercalate (l.own.map fun i =>
@@ -415,8 +461,40 @@ def runCase (st : DSt) : List String :=
           s!"{tag} res out " ++ " ".intercalate (l.own.map fun i => s!"{i}:" ++ showExp viewRes l.id envR (rs.s.out i)) ]
       | _, _ => [s!"{tag} unreachable"]
     let refused := cuts.any fun c => loadRefused st.rc (c.l.vlink.map (·.1)) (snapshot st.rc c.s)
+    -- a second failure (flat graphs): the second recovery file and the run resumed from it
+    let history : List String :=
+      match ls, cutOf root.id, resOf root.id with
+      | [l], some c, some (_, _, rs2, fin2) =>
+        if st.cut.isSome || !(fin2 == "cut" || !rs2.s.errs.isEmpty || fin2 == "aborted") then []
+        else
+          let completed2 := fun i => rs2.s.st i == .done || (rs2.s.st i == .idle && (rs2.cache i).isSome)
+          let fs2 := Storage.saveFS stCfg fsRec (content (l.own.any fun i => st.cp.contains i && completed2 i))
+            Storage.Cls.graph 2
+          let sn2 := rs2.snapshot
+          let d2 := resumedDag st c
+          let d3 : Dag := { d2 with down := fun i => l.down3.getD i [], starters := l.starters3 }
+          let rs0 := resumeInit st.rc (compSet st l) d3 sn2.clearFlags
+          let fx3 : Fix := { dirty := fun _ => false, off := st.n }
+          let (rs3, fin3) := drive (·.s) (rstep fx3 Cfg.repaired d3) (fun _ _ => false) (fuelOf l.f.n) rs0 l.sched3 0 0
+          let v3 : View := { st, outs := fun _ i => rs3.s.out i, args := fun _ i => rs3.s.args i, parentOf }
+          let v2 : View := { st, outs := fun _ i => rs2.s.out i, args := fun _ i => rs2.s.args i, parentOf }
+          let outcome := if fin3 == "aborted" then "aborted" else if fin3 == "exited" then (if rs3.s.errs.isEmpty then "ok" else "failedchild") else fin3
+          [ "H files " ++ " ".intercalate (showFS (rootDir rootId) "recovery" fs2),
+            "H cut flags " ++ " ".intercalate (l.own.map fun i =>
+              s!"{i}:" ++ (if sn2.failed i then "F" else if sn2.running i then "R" else "-")),
+            "H cut out " ++ " ".intercalate (l.own.map fun i => s!"{i}:" ++ showExp v2 l.id [] (rs2.s.out i)),
+            "H cut cache " ++ " ".intercalate (l.own.map fun i => s!"{i}:" ++ (if (sn2.cache i).isSome then "1" else "0")),
+            "H cut recv " ++ " ".intercalate (l.own.map fun i => s!"{i}:{showNats (uniqSorted (sn2.received i))}"),
+            s!"H res end {fin3}",
+            s!"H res outcome {outcome}",
+            s!"H res exec {showNats rs3.s.execLog}",
+            s!"H res done {showNats rs3.s.doneLog}",
+            "H res st " ++ " ".intercalate (l.own.map fun i => s!"{i}:{showSt (rs3.s.st i)}"),
+            "H res fcalls " ++ " ".intercalate (l.own.map fun i => s!"{i}:{rs3.fcalls i}"),
+            "H res out " ++ " ".intercalate (l.own.map fun i => s!"{i}:" ++ showExp v3 l.id [] (rs3.s.out i)) ]
+      | _, _, _ => []
     if refused then ["files " ++ " ".intercalate files, "load-failed"]
-    else ["files " ++ " ".intercalate files] ++ perLevel.flatten
+    else ["files " ++ " ".intercalate files] ++ perLevel.flatten ++ history
 
 def parseTok (w : String) : Option Tok :=
   match w.splitOn ":" with
@@ -452,7 +530,8 @@ def step' (s : DSt) (ws : List String) : DSt × List String :=
     | some lid =>
       ({ s with cur := some { id := lid, own := [], f := emptyFin s.n, down2 := List.replicate s.n [], starters2 := [],
                                exec2 := List.replicate s.n false, macros := [], ui := [], vlink := [], outNode := 0,
-                               sched := [], sched2 := [] } }, [])
+                               sched := [], sched2 := [], kbd := [], down3 := List.replicate s.n [], starters3 := [],
+                               sched3 := [] } }, [])
     | none => (s, ["bad-op"])
   | ["endlevel"] => match s.cur with
     | some l => ({ s with levels := s.levels ++ [l], cur := none }, [])
@@ -505,6 +584,30 @@ def step' (s : DSt) (ws : List String) : DSt × List String :=
     | none => (s, ["bad-op"])
   | "sched2" :: ts => match ts.mapM parseTok with
     | some ts => withCur s fun l => some { l with sched2 := ts }
+    | none => (s, ["bad-op"])
+  | "kbd" :: is => match nats is with
+    | some is => withCur s fun l => some { l with kbd := is }
+    | none => (s, ["bad-op"])
+  | "down3" :: j :: rs => match j.toNat?, nats rs with
+    | some j, some rs => withCur s fun l => some { l with down3 := setAt l.down3 j rs [] }
+    | _, _ => (s, ["bad-op"])
+  | "starters3" :: ss => match nats ss with
+    | some ss => withCur s fun l => some { l with starters3 := ss }
+    | none => (s, ["bad-op"])
+  | "sched3" :: ts => match ts.mapM parseTok with
+    | some ts => withCur s fun l => some { l with sched3 := ts }
+    | none => (s, ["bad-op"])
+  | "cp" :: is => match nats is with
+    | some is => ({ s with cp := is }, [])
+    | none => (s, ["bad-op"])
+  | "ckptmore" :: is => match nats is with
+    | some is => ({ s with ckptMore := is }, [])
+    | none => (s, ["bad-op"])
+  | "fails2" :: is => match nats is with
+    | some is => ({ s with fails2 := is }, [])
+    | none => (s, ["bad-op"])
+  | "kbd2" :: is => match nats is with
+    | some is => ({ s with kbd2 := is }, [])
     | none => (s, ["bad-op"])
   | "dirty" :: is => match nats is with
     | some is => ({ s with dirty := is }, [])
